@@ -15,22 +15,27 @@ from harness.proto import Atom
 PROP = 'C11'
 TRUSTED = [
     'modelled, not verified: genshi/template/base.py Template._prepare/_include/_flatten, markup.py _extract_includes/_match '
-    '(range of applicable match templates), loader.py TemplateLoader.load path arithmetic, directives py:if/for/def/match '
-    '(hand-written Lean model Genshi.Incl, tied by two-mode correspondence on generated directory trees)',
+    '(window of applicable match templates, select() as the content of the matched element), loader.py TemplateLoader.load path arithmetic, '
+    'directives py:if/for/def/match, the filter pipelines of markup and text templates '
+    '(hand-written Lean model Genshi.Incl, tied by two-mode correspondence on generated directory trees, single and several requests per loader)',
     'the printer from the abstract template language to genshi source text (harness/gen_c11.py source()) and the canonicaliser of event streams',
-    'not modelled: expat / the text-template regex parser (templates are generated well-formed; one ill-formed file kind is used for the eager-syntax-error finding), '
-    'expression evaluation beyond variable look-up / truthiness / iteration, attributes, py:choose/with/attrs/content/replace/strip, select() in match templates, '
-    'match paths other than a single element name, absolute paths, search-path load functions other than directories, the loader cache bound and mtime checks (C15)',
-    'fuel stands for Python recursion depth: the model charges one unit per template / macro / match-template entry in both modes (inlined templates keep a cost marker), '
-    'so "terminates" is compared, not the exact depth at which CPython gives up',
+    'not modelled: expat / the text-template regex parser (templates are generated well-formed; one fixed ill-formed source per class is used for the '
+    'eager-syntax-error finding), expression evaluation beyond variable look-up / truthiness / iteration / string splice, attributes, '
+    'py:choose/with/attrs/content/replace/strip, macro arguments, match paths other than a single element name, selections other than *|text(), '
+    'absolute paths, search-path load functions other than directories, the loader cache bound and mtime checks (C15), '
+    'the loader state after a failed render (sequences are compared up to the first failure in inline mode)',
+    'fuel stands for Python recursion depth: "terminates" is compared (model fuel 24, Python recursion limit 420, generated terminating trees far below, '
+    'diverging ones far above), not the exact depth at which CPython gives up; trees whose rendering exceeds a deterministic work bound on the real code '
+    '(loads, events, match templates, match-list walks) are skipped and counted',
 ]
 ASSUMPTIONS = [
-    'files do not change while a template is rendered; one render per fresh loader',
+    'files do not change while a loader is in use',
     'every file is included under one template class (its own); hrefs are relative',
-    'macro, loop-variable and data names are disjoint; macros take no arguments; a macro body does not call macros (direct macro recursion never ends in _flatten)',
-    'theorem hypothesis inH: every file well-formed (finding C11-eager-syntax), no statically named include and no macro call inside an element a match template may rewrite '
-    'or inside a match template body (finding C11-match-range), static includes name the class of their target',
-    'text templates use only text, expressions, if, for, def and include (no macro calls: finding C11-match-range, text pipeline variant)',
+    'macro, loop-variable and data names are disjoint; macros take no arguments; macro calls do not occur in files reachable from macro bodies '
+    '(a macro that recurses through an include is a RecursionError at run time but an endless loop in _flatten once inlined; both diverge)',
+    'theorem hypothesis inH: every file well-formed (finding C11-eager-syntax), no statically named include and no macro call inside an element a match '
+    'template may rewrite or inside a match template body (findings C11-match-range, C11-match-range-select), static includes name the class of their '
+    'target, text templates make no macro calls (finding C11-match-range-text)',
 ]
 
 FUEL = 24
